@@ -88,7 +88,7 @@ func refOracle(w *worldRun) (string, string) {
 		}
 	}
 	for _, res := range w.Results {
-		if res.Spec.Ref == "" || res.Spec.Kind != "create" {
+		if res.Spec.Ref == "" || res.Spec.Kind != "create" || res.Spec.DryRun {
 			continue
 		}
 		rows := rowFor(res.Spec, logs, w.SeedLen)
@@ -134,8 +134,11 @@ func revertOracle(w *worldRun) (string, string) {
 		if o == nil {
 			return fmt.Sprintf("revert of unknown transaction %s", k), "revert-unknown"
 		}
-		want := append(ledger.Postings{}, o.Postings...)
-		want.Reverse()
+		want := make(ledger.Postings, 0, len(o.Postings)) // written out: the oracle must not share code with the revert path
+		for i := len(o.Postings) - 1; i >= 0; i-- {
+			q := o.Postings[i]
+			want = append(want, ledger.Posting{Source: q.Destination, Destination: q.Source, Asset: q.Asset, Amount: q.Amount})
+		}
 		if fmt.Sprint(want) != fmt.Sprint(rs[0].Postings) {
 			return fmt.Sprintf("revert of %s has postings %v, the exact inverse is %v", k, rs[0].Postings, want), "revert-not-inverse"
 		}
